@@ -923,12 +923,27 @@ fn dec_values<S: Clone + Eq>(
 ) {
     let mut typed = fresh();
     let mut raw = fresh();
+    let mut via_read = fresh();
     let mut rs = ref_fresh();
     let mut n = 0u64;
     for &(size, op) in values {
         let plain = ops.kind.layout(size, op);
         let mut wire = plain.clone();
         rs.enc(&mut wire);
+        // the reader-based entry point decodes every value the typed one decodes (no value is "invalid data")
+        {
+            let mut cur = std::io::Cursor::new(&wire[..]);
+            let r = (ops.read)(&mut via_read, &mut cur);
+            if r.as_ref().ok() != Some(&(size, op)) {
+                report.violation(Violation {
+                    signature: format!("C11|{}|read-decrypt-disagrees-with-typed", ops.name),
+                    scenario: "value-sweep-decrypt".into(),
+                    replay: json!({"session_key": hex(key), "size": size, "opcode": op, "headers_before": n}),
+                    detail: json!({"read_entry_point": format!("{:x?}", r.map_err(|e| e.to_string())), "sent": format!("{:x?}", (size, op))}),
+                });
+                return;
+            }
+        }
         let h = (ops.typed)(&mut typed, &wire);
         let mut w = wire.clone();
         (ops.raw)(&mut raw, &mut w);
